@@ -22,7 +22,8 @@ RULE = ("cases = one generated CREATE TABLE each: 2..8 columns with inline PRIMA
         "one key/unique/check/foreign-key declaration; distinct = distinct DDL text. Known-finding classes (two-word referential "
         "actions, clause before the first column, UNIQUE clause before its column) are generated separately and classified by mechanism."
         " Added after seeded defects: sort directions and [NON]CLUSTERED on key clauses, inline PK next to a named table-level PK (the named constraint's own list is compared), look-alike columns (id / \"ID\"), tricky vocabulary names.")
-ASSUMPTIONS = ["one PRIMARY KEY declaration per table (SQL allows no more)",
+ASSUMPTIONS = ["the *name* of an inline named foreign key (col type CONSTRAINT n REFERENCES ...) is reported nowhere on the pinned tree and is not judged; its reference must sit on its own column and must not create constraint entries",
+               "one PRIMARY KEY declaration per table (SQL allows no more)",
                "the same spelling of a column is used in its definition and in the clauses that name it",
                "reporting conventions of DESIGN 6/C02 (UC_<cols> name for unnamed multi-column unique, named FK under constraints.references, ...)",
                "the unique *flag* of the sole column of a *named* unique constraint is not checked"]
